@@ -20,6 +20,8 @@ from __future__ import annotations
 
 import struct
 
+import c04_pool as P
+
 PIFF = "ua2394f525a9b4f14a2446c427c648df4"
 CONTAINERS = ["moov", "trak", "traf", "moof", "minf", "mvex", "mdia", "schi", "sinf", "stbl", "udta"]
 LEAF_KINDS = {"ftyp": "ftyp", "styp": "ftyp", "mfhd": "mfhd", "tfhd": "tfhd", "tfdt": "tfdt",
@@ -206,7 +208,7 @@ def gen_fields(kind: str, rng, big: bool = False, ctx_iv: int = 8) -> dict:
     if kind == "tenc":
         v, f = vflags(rng, (0, 0, 1))
         return dict(version=v, flags=f, is_encrypted=rng.choice([0, 1, 1, bnd(rng, 24)]),
-                    iv_size=rng.choice([8, 16, 0, bnd(rng, 8)]), default_kid=rbytes(rng, 16))
+                    iv_size=rng.choice([8, 16, 0, bnd(rng, 8)]), default_kid=P.fixed(rng, 16))
     if kind == "ftyp":
         return dict(major_brand=ascii4(rng), minor_version=bnd(rng, 32),
                     compatible_brands=[ascii4(rng) for _ in range(rng.choice([0, 0, 1, 2, 5, n_max]))])
@@ -261,9 +263,9 @@ def gen_fields(kind: str, rng, big: bool = False, ctx_iv: int = 8) -> dict:
     if kind == "pssh":
         v = rng.choice([0, 0, 1, 1, 2])
         _, f = vflags(rng)
-        kids = [rbytes(rng, 16) for _ in range(rng.choice([0, 1, 2, n_max]))] if v > 0 else []
-        return dict(version=v, flags=f, system_id=rbytes(rng, 16), key_ids=kids,
-                    data=rbytes(rng, rng.choice([0, 0, 1, 17, 40, 300 if big else 41])))
+        kids = [P.fixed(rng, 16) for _ in range(rng.choice([0, 1, 2, n_max]))] if v > 0 else []
+        return dict(version=v, flags=f, system_id=P.fixed(rng, 16), key_ids=kids,
+                    data=P.payload(rng, [0, 0, 1, 17, 40, 300 if big else 41]))
     if kind == "sidx":
         v = rng.choice([0, 0, 1, 1, 3])
         _, f = vflags(rng)
@@ -278,7 +280,7 @@ def gen_fields(kind: str, rng, big: bool = False, ctx_iv: int = 8) -> dict:
         return dict(version=v, flags=f, scheme_id_uri=utf8_str(rng), value=utf8_str(rng),
                     timescale=bnd(rng, 32), presentation_time_delta=bnd(rng, 32) if v == 0 else 0,
                     presentation_time=bnd(rng, 64) if v == 1 else 0, event_duration=bnd(rng, 32),
-                    event_id=bnd(rng, 32), data=rbytes(rng, rng.choice([0, 0, 1, 9, 30])))
+                    event_id=bnd(rng, 32), data=P.payload(rng, [0, 0, 1, 9, 30]))
     if kind == "dec3":
         subs = []
         for _ in range(rng.choice([1, 1, 2, 3, 8])):
@@ -288,7 +290,7 @@ def gen_fields(kind: str, rng, big: bool = False, ctx_iv: int = 8) -> dict:
         return dict(data_rate=bnd(rng, 13), substreams=subs,
                     ext=(bnd(rng, 1), bnd(rng, 8)) if rng.random() < .5 else None)
     if kind == "opaque":
-        return dict(data=rbytes(rng, rng.choice([0, 0, 1, 3, 8, 9, 40])))
+        return dict(data=P.payload(rng))
     raise ValueError(kind)
 
 
@@ -299,7 +301,7 @@ def gen_cenc(rng, ctx_iv: int, big: bool):
     alg, kid, iv = 0, b"", ctx_iv
     if rng.random() < .3:
         f |= 1
-        alg, kid, iv = bnd(rng, 24), rbytes(rng, 16), rng.choice([8, 16])
+        alg, kid, iv = bnd(rng, 24), P.fixed(rng, 16), rng.choice([8, 16])
     with_subs = rng.random() < .6
     if with_subs:
         f |= 2
@@ -311,7 +313,7 @@ def gen_cenc(rng, ctx_iv: int, big: bool):
         subs = []
         if with_subs and rng.random() < .8:
             subs = [(bnd(rng, 16), bnd(rng, 32)) for _ in range(rng.choice([1, 1, 2, 3]))]
-        samples.append((rbytes(rng, iv), subs))
+        samples.append((P.fixed(rng, iv), subs))
         sizes.append(iv + (2 + 6 * len(subs) if subs else 0))
     senc = dict(version=v, flags=f, algorithm_id=alg, iv_size=iv, kid=kid, samples=samples)
     sf = rng.choice([0, 0, 1])
@@ -337,7 +339,7 @@ def leaf(name_or_typ: str, kind: str, fields: dict, large=False):
 
 def gen_unknown(rng):
     if rng.random() < .25:
-        u = rbytes(rng, 16)
+        u = P.fixed(rng, 16)
         return ("L", "u" + u.hex(), maybe_large(rng), "opaque", gen_fields("opaque", rng))
     return leaf(rng.choice(UNKNOWN_CODES), "opaque", gen_fields("opaque", rng), maybe_large(rng))
 
@@ -431,7 +433,7 @@ def gen_fragment(rng, big, ctx_iv, allow_cenc=True, with_mdat=None):
         moof_kids.append(("N", cc("traf"), False, [leaf("tfhd", "tfhd", gen_fields("tfhd", rng, big))]))
     boxes = [("N", cc("moof"), maybe_large(rng), moof_kids)]
     if with_mdat:
-        boxes.append(leaf("mdat", "opaque", dict(data=rbytes(rng, rng.choice([0, 1, 16, 64]))), maybe_large(rng)))
+        boxes.append(leaf("mdat", "opaque", dict(data=P.payload(rng, [0, 1, 16, 64])), maybe_large(rng)))
     return boxes, cenc
 
 
